@@ -215,6 +215,18 @@ class C20(Prop):
                                     "do u1a clone,c1,/c20/u1/v1", "do u1a seteuid,s:u1", "do u1a clone,c1,/c20/u1/v1"])
         mk("nested-reload", ["script /c20/u1/a seteuid,s:u1;reload,u2a;reload,u1a;reload,m;load,/c20/u2/b", "script /c20/u2/b reload,u1a;reload,u2a",
                              "do m load,/c20/u2/a", "do u2a seteuid,s:u2", "do m load,/c20/u1/a"])
+        # ---- round 4: reload of the master, function pointers evaluated by other objects -----------------------------
+        mk("master-reload", ["pol cf u1 s:zed", "pol vs m * i:1", "do m load,/c20/u1/a", "do u1a dest,m", "do m seteuid,s:x9",
+                             "do m seteuid,i:0", "do u1a seteuid,s:u1", "do u1a dest,m", "do u1a load,/c20/u1/b", "do m seteuid,i:0",
+                             "do m dest,m", "do m load,/c20/u1/c", "do m export,u1c", "do u1c dest,m", "do zz dest,m"])
+        mk("master-reload-nested", ["script /c20/u1/a seteuid,s:u1;dest,m", "do m seteuid,i:0", "do m load,/c20/u1/a", "do u1a dest,m"])
+        mk("funptr-owner-euid", ["do m load,/c20/u1/a", "do m load,/c20/u2/a", "do u1a seteuid,s:u1", "do u2a via,u1a,load,/c20/u1/b",
+                                 "do u1a via,u2a,load,/c20/u1/c", "do u1a via,u2a,clone,c1,/c20/u1/b", "do u1a via,u2a,seteuid,s:zed",
+                                 "do u1a via,zz,seteuid,s:zed", "do u2a via,u1a,via,u2a,clone,c1,/c20/u1/b",
+                                 "do u2a via,u1a,export,u1b", "do m via,u1a,seteuid,i:0", "do m via,u1a,dest,u1b", "do u2a via,m,dest,m",
+                                 "do u1a via,m,load,/c20/bb/a"])
+        mk("funptr-in-create", ["script /c20/u2/a via,u1a,load,/c20/u2/b;via,u2a,load,/c20/u2/c;load,/c20/u2/c",
+                                "do m load,/c20/u1/a", "do u1a seteuid,s:u1", "do u1a load,/c20/u2/a"])
         return B
 
     def gen_scripts(self, rng):
@@ -327,21 +339,26 @@ class C20(Prop):
                     lines.append("pol vs %s %s %s" % (o, u if u != "" else "-", rng.weighted(VS_SPECS)))
                 continue
             a = actor()
+            caller = actor() if rng.chance(1, 8) else None
+
+            def DO(owner, op):
+                # optionally through a function pointer: <caller> evaluates a function made by <owner>
+                return "do %s via,%s,%s" % (caller, owner, op) if caller else "do %s %s" % (owner, op)
             k = rng.weighted([("seteuid", 10), ("load", 9), ("clone", 9), ("export", 7), ("dest", 2), ("reload", 2),
                               ("seteuid0", 3), ("seteuidint", 1), ("cferr", 2)])
             if k == "seteuid":
-                lines.append("do %s seteuid,s:%s" % (a, rng.choice(NAMES)))
+                lines.append(DO(a, "seteuid,s:%s" % rng.choice(NAMES)))
                 if a in objs and not refuse_default:
                     objs[a] = True
             elif k == "seteuid0":
-                lines.append("do %s seteuid,i:0" % a)
+                lines.append(DO(a, "seteuid,i:0"))
                 if a in objs:
                     objs[a] = False
             elif k == "seteuidint":
-                lines.append("do %s seteuid,i:%d" % (a, rng.choice([1, -1, 5, 0])))
+                lines.append(DO(a, "seteuid,i:%d" % rng.choice([1, -1, 5, 0])))
             elif k == "load":
                 p = path()
-                lines.append("do %s load,%s" % (a, p))
+                lines.append(DO(a, "load,%s" % p))
                 created(a, p)
             elif k == "clone":
                 nclone[0] += 1
@@ -349,18 +366,18 @@ class C20(Prop):
                 if rng.chance(1, 30):
                     o = rng.choice(["m", "u1a", "c1"])
                 p = path()
-                lines.append("do %s clone,%s,%s" % (a, o, p))
+                lines.append(DO(a, "clone,%s,%s" % (o, p)))
                 created(a, p, o)
             elif k == "export":
-                lines.append("do %s export,%s" % (a, some_obj(True)))
+                lines.append(DO(a, "export,%s" % some_obj(True)))
             elif k == "dest":
-                t = some_obj()
-                lines.append("do %s dest,%s" % (a, t))
+                t = some_obj() if rng.chance(5, 6) else "m"
+                lines.append(DO(a, "dest,%s" % t))
                 if t != "m":
                     objs.pop(t, None)
             elif k == "reload":
                 t = some_obj()
-                lines.append("do %s reload,%s" % (a, t))
+                lines.append(DO(a, "reload,%s" % t))
                 if t in objs and t != "m":
                     objs[t] = False
             else:
